@@ -5,6 +5,7 @@ package desync
 // the counterexample recorded by the solver.
 
 import (
+	"path/filepath"
 	"encoding/hex"
 	"encoding/json"
 	"fmt"
@@ -165,7 +166,19 @@ func vFSMutations() int                       { return 0 }
 func vCrashAt(k int, short int, after func()) {} // engine only
 func vCrashed() bool                          { return false }
 func vSetCanClone(on bool)                    {}
-func vFSList(dir string) []string             { return nil }
+func vFSList(dir string) []string {
+	if dir == "/" {
+		return nil // natively only directories of the harness are listed, not the machine
+	}
+	var out []string
+	filepath.Walk(dir, func(p string, info os.FileInfo, err error) error {
+		if err == nil && p != dir {
+			out = append(out, p)
+		}
+		return nil
+	})
+	return out
+}
 func vSetBlockSize(n int) {}
 func vClones() int        { return 0 }
 func vSchedFixed(on bool)        {}
